@@ -1,6 +1,53 @@
-"""C05: unit contracts (contracts/*.py) plus the GENPROG obligations that carry this property (generated model loaders)."""
+"""C05: unit contracts (contracts/*.py) plus the GENPROG obligations that carry this property (generated model loaders), plus a bounded
+check of the struct_trail helpers whose contracts the proofs USE at call sites (they keep the trail in a `deque` attribute, which the
+executor does not model): append_trail(obj, el) makes the trail [el] + old, extend_trail(obj, sub) makes it list(sub) + old, both return
+the object itself, render_trail_as_note returns its argument and leaves the trail alone."""
+import itertools
+
+
+def helper_checks():
+    from adaptix._internal.struct_trail import Attr, ItemKey, append_trail, extend_trail, get_trail, render_trail_as_note
+    viol, n = [], 0
+    elements = ["k", 0, -1, ItemKey("k"), Attr("a"), ("t", 1), None, ""]
+
+    def report(fn, case, detail):
+        viol.append({"unit": f"struct_trail.{fn}", "clause": "helper-contract", "witness": case[:160],
+                     "w": {"input": case[:300], "native_outcome": detail[:300]}})
+
+    def fresh(old):
+        e = ValueError("x")
+        for el in reversed(old):
+            append_trail(e, el)
+        return e
+    for n_old in range(0, 4):
+        for old in itertools.product(elements[:4], repeat=n_old):
+            old = list(old)
+            for el in elements:
+                n += 1
+                e = fresh(old)
+                r = append_trail(e, el)
+                if r is not e or list(get_trail(e)) != [el] + old:
+                    report("append_trail", f"trail {old!r} + element {el!r}", f"returned {'the object' if r is e else 'another object'}, trail {list(get_trail(e))!r}")
+            for n_sub in range(0, 4):
+                for sub in itertools.product(elements[3:6], repeat=n_sub):
+                    for mk in (list, tuple):
+                        n += 1
+                        e = fresh(old)
+                        r = extend_trail(e, mk(sub))
+                        if r is not e or list(get_trail(e)) != list(sub) + old:
+                            report("extend_trail", f"trail {old!r} + sub-trail {mk(sub)!r}", f"trail {list(get_trail(e))!r}")
+            n += 1
+            e = fresh(old)
+            r = render_trail_as_note(e)
+            if r is not e or list(get_trail(e)) != old:
+                report("render_trail_as_note", f"trail {old!r}", f"trail {list(get_trail(e))!r}")
+    return {"obligations": 0, "discharged": 0, "violations": viol, "solver_time": 0.0,
+            "bounded": [{"unit": "struct_trail.append_trail / extend_trail / render_trail_as_note (contracts assumed at call sites)",
+                         "bound": f"{n} cases: existing trails of length <= 3, elements / sub-trails of length <= 3 over 8 element kinds"}],
+            "samples": [{"helper_cases": n, "failed": len(viol)}],
+            "assumptions": ["the helper contracts used at call sites are checked only on this bounded family"]}
 
 
 def extra_checks(tier, seed):
     from genprog.check import extra_for_property
-    return [extra_for_property("C05", tier, seed)]
+    return [extra_for_property("C05", tier, seed), helper_checks()]
